@@ -269,6 +269,14 @@ pub struct StaticObs {
     pub stages: Result<Vec<StageResp>, String>,
     pub stage_k: Vec<Result<StageResp, String>>,
     pub members_k: Vec<Result<Vec<(u64, u64)>, String>>,
+    /// AllStageMemberInfo per probe: (stage_id, is_member, per_address_limit) for every stage
+    pub all_info: Vec<Result<Vec<Info>, String>>,
+    /// StageMemberInfo per probe and stage id 0..3
+    pub stage_info: Vec<Vec<Result<Info, String>>>,
+}
+pub type Info = (u64, bool, u64);
+fn coq_info(i: &Info) -> String {
+    format!("({},{},{})", i.0, coq_bool(i.1), i.2)
 }
 #[derive(Clone, Debug, PartialEq, Eq)]
 pub struct Cfg {
@@ -316,6 +324,14 @@ impl StaticObs {
                     .map(|r| coq_res(r, |v| coq_list(&v.iter().map(|(a, c)| format!("({},{})", a, c)).collect::<Vec<_>>())))
                     .collect::<Vec<_>>()
             ),
+        )
+    }
+    /// the per-address membership views (not clock dependent)
+    pub fn info_coq(&self) -> String {
+        format!(
+            "SInfo {} {}",
+            coq_list(&self.all_info.iter().map(|r| coq_res(r, |v| coq_list(&v.iter().map(coq_info).collect::<Vec<_>>()))).collect::<Vec<_>>()),
+            coq_list(&self.stage_info.iter().map(|l| coq_list(&l.iter().map(|r| coq_res(r, coq_info)).collect::<Vec<_>>())).collect::<Vec<_>>()),
         )
     }
 }
@@ -542,7 +558,23 @@ impl World {
             assert!(all.len() < 100_000, "Members pagination does not terminate");
         }
     }
-    pub fn static_obs(&mut self) -> StaticObs {
+    fn parse_info(v: &Value) -> Info {
+        (v["stage_id"].as_u64().unwrap(), v["is_member"].as_bool().unwrap(), v["per_address_limit"].as_u64().unwrap())
+    }
+    pub fn static_obs(&mut self, probes: &[Probe]) -> StaticObs {
+        let mut all_info = vec![];
+        let mut stage_info = vec![];
+        for p in probes {
+            all_info.push(
+                self.q(json!({"all_stage_member_info": {"member": addr_str(p.member)}}))
+                    .map(|v| v["all_stage_member_info"].as_array().unwrap().iter().map(Self::parse_info).collect()),
+            );
+            stage_info.push(
+                (0..4u32)
+                    .map(|id| self.q(json!({"stage_member_info": {"stage_id": id, "member": addr_str(p.member)}})).map(|v| Self::parse_info(&v)))
+                    .collect(),
+            );
+        }
         let stages = match self.q(json!({"stages": {}})) {
             Ok(v) => Ok(v["stages"].as_array().unwrap().clone().iter().map(|x| self.parse_resp(x)).collect()),
             Err(e) => Err(e),
@@ -556,7 +588,7 @@ impl World {
             });
             members_k.push(self.members_all(id));
         }
-        StaticObs { stages, stage_k, members_k }
+        StaticObs { stages, stage_k, members_k, all_info, stage_info }
     }
     /// clock-dependent queries at the current block time
     pub fn time_obs(&mut self, probes: &[Probe]) -> TimeObs {
